@@ -144,6 +144,12 @@ CHECKS = {
             "archives are read back by GNU tar and tarfile; oracle: complete stream => identical tree, damaged stream => raises or "
             "identical tree, always terminates.",
             "In-memory StreamWrapper; archives <= 80 KiB; symlinks dereferenced (tar chf, as the connectors do).", "3/C23"),
+    "C31": ("exploration", "E3", E3 + "; differential against node.js evaluation with a recording Proxy",
+            "All expressions of a grammar (parameter references, JS $(...) over all atom pairs x operators, ${...} bodies with aliasing, "
+            "shadowing, closures, computed keys, branches, loops, callbacks, comments/strings mentioning inputs; 1.2k quick / 5.4k "
+            "thorough) analysed by the real resolve_dependencies and evaluated by node with inputs wrapped in a recording Proxy; "
+            "oracle: node succeeds => analysis returns and recorded reads are a subset of its result.",
+            "Top-level fields of inputs only; four recorded causes (computed key, var alias, inputs as argument, (inputs).a).", "3/C31"),
 }
 
 NOT_YET = "check not built yet in this session (planned, see DESIGN.md section 3); no claim is made"
